@@ -324,10 +324,71 @@ pub fn check_conv(c: &ConvCase, info: &mut CaseInfo) -> Result<(), String> {
 	model::check_cert(&d, &spec, spki, &issuer)
 }
 
+// ---------------------------------------------------------------------------------------------
+// A parameter object that has been used before and is then edited: the certificate must say what
+// the parameters say *now*.
+
+#[derive(Clone, Debug, Serialize, Deserialize, PartialEq, Eq, Hash)]
+pub struct ReuseCase {
+	pub first: CertSpec,
+	pub second: CertCase,
+	/// edit collections and name where they stand instead of assigning the fields
+	pub in_place: bool,
+	/// how the object was used before: bit 0 serialize_request through a reference, bit 1
+	/// self_signed from a clone, bit 2 start from a clone of an issued certificate's params()
+	pub warm: u8,
+}
+
+pub fn check_reuse(c: &ReuseCase, info: &mut CaseInfo) -> Result<(), String> {
+	info.nontrivial = true;
+	info.class(if c.in_place { "edit:in-place" } else { "edit:assign-fields" });
+	info.class(format!("warm:{}", c.warm % 8));
+	let key = keys::make_key(&c.second.key)?;
+	let mut params = crate::mk::cert_params(&c.first)?;
+	if c.warm & 4 != 0 {
+		if let Ok(cert) = params.clone().self_signed(&key) {
+			params = cert.params().clone();
+		}
+	}
+	if c.warm & 1 != 0 {
+		let _ = params.serialize_request(&key);
+	}
+	if c.warm & 2 != 0 {
+		let _ = params.clone().self_signed(&key);
+	}
+	crate::mk::cert_params_onto(&mut params, &c.second.spec, c.in_place)?;
+	let fresh = crate::mk::cert_params(&c.second.spec)?;
+	if params != fresh {
+		return Err("an edited parameter object differs (==) from a fresh one with the same field values".into());
+	}
+	let (cert, issuer_built) = match &c.second.issuer {
+		None => (params.self_signed(&key).map_err(|e| format!("self_signed: {e}"))?, None),
+		Some(i) => {
+			let ik = keys::make_key(&i.key)?;
+			let ic = crate::mk::cert_params(&i.spec)?.self_signed(&ik).map_err(|e| format!("issuer: {e}"))?;
+			(params.signed_by(&key, &ic, &ik).map_err(|e| format!("signed_by: {e}"))?, Some(()))
+		},
+	};
+	let _ = issuer_built;
+	let (d, _) = decode_cert(cert.der())?;
+	let subject_spki = &keys::fixture(&c.second.key).spki;
+	let issuer = issuer_info(&c.second);
+	model::check_cert(&d, &c.second.spec, subject_spki, &issuer).map_err(|e| format!("after editing a used parameter object: {e}"))
+}
+
+fn reuse_case() -> BoxedStrategy<ReuseCase> {
+	(gen::cert_spec(CertGenOpts::FULL), cert_case(CertGenOpts::FULL, true), any::<bool>(), 0u8..8)
+		.prop_map(|(first, mut second, in_place, warm)| {
+			second.pk_source = PkSource::KeyPair;
+			ReuseCase { first, second, in_place, warm }
+		})
+		.boxed()
+}
+
 pub fn def() -> PropertyDef {
 	PropertyDef {
 		id: "C02",
-		rule: "Spec (every CertificateParams field, sparsity modes nothing/exactly-one/random-subset/everything, 3 public-key sources, self- and issuer-signed, all key algorithms) -> rcgen -> harness RFC 5280 decoder -> compared with the reference model; sweeps: 511 key-usage subsets (alone and with a SAN), 256 path lengths, 256 prefixes x 3 constructors x v4/v6. Sub-check constructors: parameters built through the convenience API instead of the public fields (CertificateParams::new and generate_simple_self_signed with host names, IP literals and look-alikes; SerialNumber::from(u64 / Vec<u8>); insert_extended_key_usage with repeats; DnType::from_oid with &str / String values pushed onto the default name; date_time_ymd) against the same model. Non-trivial = at least one extension-bearing field set (constructors: two or more names or a pushed attribute); distinct by hash of the Spec JSON.",
+		rule: "Spec (every CertificateParams field, sparsity modes nothing/exactly-one/random-subset/everything, 3 public-key sources, self- and issuer-signed, all key algorithms) -> rcgen -> harness RFC 5280 decoder -> compared with the reference model; sweeps: 511 key-usage subsets (alone and with a SAN), 256 path lengths, 256 prefixes x 3 constructors x v4/v6. Sub-check constructors: parameters built through the convenience API instead of the public fields (CertificateParams::new and generate_simple_self_signed with host names, IP literals and look-alikes; SerialNumber::from(u64 / Vec<u8>); insert_extended_key_usage with repeats; DnType::from_oid with &str / String values pushed onto the default name; date_time_ymd) against the same model. Sub-check params-reuse: a parameter object made for other content, already used (serialize_request through a reference, self_signed from a clone, or taken from an issued certificate's params()), is edited field by field or in place (collections cleared and refilled, name attributes removed and pushed) into the case's parameters; it must equal a fresh object and produce the certificate the model expects. Non-trivial = at least one extension-bearing field set (constructors: two or more names or a pushed attribute); distinct by hash of the Spec JSON.",
 		assumptions: vec![
 			"the harness DER/X.509 decoder (der.rs, x509.rs) is correct; it shares no code with rcgen/yasna/x509-parser and is unit- and differentially tested",
 			"SHA-2 from OpenSSL and OpenSSL's SubjectPublicKeyInfo encoding of the fixture keys are the reference for key identifiers and SPKI bytes",
@@ -338,6 +399,7 @@ pub fn def() -> PropertyDef {
 			sweep_sub("pathlen-sweep", |_| pathlen_sweep_cases(), check_case),
 			sweep_sub("prefix-sweep", |_| prefix_sweep_cases(), check_case),
 			prop_sub("constructors", 24_000, 300_000, conv_case, check_conv),
+			prop_sub("params-reuse", 24_000, 300_000, reuse_case, check_reuse),
 			// oracle self-test: the decoder against OpenSSL's own encoder (failures are INTERNAL, exit 2)
 			crate::props::selftest::sub(),
 		],
